@@ -5,6 +5,7 @@ import Esp.Spec.Wire
 import Driver.Util
 import Driver.Conv
 import Driver.Ka
+import Driver.Dp
 /-!
 # Line-protocol driver
 
@@ -18,6 +19,7 @@ structure St where
   noiseCfg : Noise.Config := { expectedName := none, hs := fun _ => .raises, utf8 := fun _ => true }
   noise : Noise.Helper := {}
   ka : Keepalive.State := Keepalive.init 1
+  dp : DrvDp.DSt := {}
 
 def showPlainErr : Option PlainErr → String
   | none => "none" | some .requiresEncryption => "requiresEncryption" | some .protocol => "protocol"
@@ -125,6 +127,7 @@ def step (st : St) (line : String) : St × String :=
     let h := ws.head?.getD ""
     if h.startsWith "conv." then (st, convStep ws)
     else if h.startsWith "ka." then let r := DrvKa.kaStep st.ka ws; ({ st with ka := r.1 }, r.2)
+    else if h.startsWith "dp." then let r := DrvDp.dpStep st.dp ws; ({ st with dp := r.1 }, r.2)
     else (st, "bad-op")
 
 partial def loop (h : IO.FS.Stream) (out : IO.FS.Stream) (st : St) : IO Unit := do
